@@ -40,11 +40,21 @@ def _check_graph(g, spec, m, label, ntops=None):
     for k, v in enumerate(vs):
         try:
             # the public encoders / decoders in rotation: module functions, codec methods, stream functions
-            s = penman.encode(g, top=v, model=m, indent=None) if k % 2 == 0 else codec.encode(g, top=v, indent=None)
+            if k % 4 == 0:
+                s = penman.encode(g, top=v, model=m, indent=None)
+            elif k % 4 == 1:
+                s = codec.encode(g, top=v, indent=None)
+            elif k % 4 == 2:
+                s = penman.encode(g, v, m, None)                 # positional, in the documented order (g, top, model, indent)
+            else:
+                late = penman.PENMANCodec()
+                late.model = m if m is not None else late.model     # the codec's public attribute, assigned after construction
+                s = late.encode(g, top=v, indent=None)
         except penman.exceptions.LayoutError as e:
             f.append(('encode-raises', '%s top=%r: LayoutError %s' % (label, v, e)))
             break
         how = k % 5
+        g2 = None
         if how == 0:
             g2 = penman.decode(s, model=m)
         elif how == 1:
@@ -53,8 +63,12 @@ def _check_graph(g, spec, m, label, ntops=None):
             g2 = codec.decode(s)
         elif how == 3:
             g2 = next(iter(penman.iterdecode(s, model=m)))
-        else:
+        elif how == 4:
             g2 = next(iter(codec.iterdecode(s)))
+        if k % 7 == 6:
+            late = penman.PENMANCodec()
+            late.model = m if m is not None else late.model
+            g2 = late.decode(s)
         d = graphm.content_diff(g.triples, v, g2.triples, g2.top, spec, explicit_top_a=v)
         if d:
             f.append(('content-changed', '%s top=%r -> %s : %s' % (label, v, s, d)))
